@@ -983,6 +983,64 @@ fn era1_and_paced2_cases(r: &mut Runner) {
     }
 }
 
+/// FDT-only starvation under real-time polling (review batch 3; finding sched-11): the clock advances by `step` per
+/// read.  When one FDT instance has so many packets that sending it at the polling rate takes at least the time
+/// between a publication and the next republication (`fdt_duration` minus the republish lead of 5 s / 1 s / 0), the
+/// instance is due for republication as soon as it has been sent, a successor is always pending and the objects never
+/// get a packet.  Each configuration is run twice: `step` just above the threshold (starves: known class) and at a
+/// third of it (control: objects must be sent).
+fn fdt_starvation_cases(r: &mut Runner) {
+    let mut i = 0;
+    for full in [true, false] {
+        for fdt_dur in [S, 12 * S, 40 * S] {
+            let lead = if fdt_dur > 30 * S { 5 * S } else if fdt_dur > 10 * S { S } else { 0 };
+            for starve in [true, false] {
+                i += 1;
+                r.begin(&format!("fdtstarve-{}", i));
+                // tiny FDT symbols: one instance = many packets
+                let cfg = NewSpec { full, fdt_car: (false, 3600 * S), fdt_dur, start_id: 1, il: 1, efdt: 16, fits: true, queues: vec![(0, 1)] };
+                r.op(cfg.line());
+                let mut a = AddSpec::simple(0, 2);
+                a.car = Some((false, MS));
+                r.op(a.line());
+                r.op(format!("sched publish {}", r.now));
+                // phase 1: one instant, everything goes out once; this tells how many packets an instance has
+                r.read_until_none(5000);
+                if r.dead {
+                    r.finish();
+                    continue;
+                }
+                let n = r.eng.fdt_tbl.values().copied().max().unwrap_or(1).max(1);
+                let threshold = (fdt_dur - lead) / n + 1;
+                let step = if starve { threshold } else { (threshold / 3).max(1) };
+                // phase 2: real-time polling, one read per `step`
+                let before = r.eng.obj_pkts;
+                let polls = 4 * n + 40;
+                for _ in 0..polls {
+                    r.now += step;
+                    r.read();
+                    if r.dead {
+                        break;
+                    }
+                }
+                let sent = r.eng.obj_pkts - before;
+                if sent == 0 && !r.dead {
+                    let d = format!(
+                        "{} reads, one every {} ns: FDT packets only, 0 object packets although the carousel object is eligible; one FDT instance = {} packets, fdt_duration {} ns, republish lead {} ns: sending one instance takes {} ns >= {} ns",
+                        polls, step, n, fdt_dur, lead, n * step, fdt_dur - lead
+                    );
+                    r.ctx.oracle_fail(if starve { "C12:fdt-only-starvation-slow-polling" } else { "C12:fdt-only-starvation-unexplained" }, &d);
+                }
+                if starve && sent > 0 && !r.dead {
+                    r.ctx.count("fdtstarve:not-reproduced");
+                }
+                r.op("sched remove 1".into());
+                r.finish();
+            }
+        }
+    }
+}
+
 /// EMPTY objects sent with a rateless codec from a buffer: one transfer = `parity` repair packets of the empty block
 /// (finding benc-3); the model takes the packet count of one transfer as input (nSym of the op line)
 fn empty_rateless_cases(r: &mut Runner) {
@@ -1114,6 +1172,7 @@ pub fn run(ctx: &mut Ctx, _eng: &mut dyn Engine) {
     clock_back_cases(&mut r);
     huge_cases(&mut r);
     fault_model_cases(&mut r);
+    fdt_starvation_cases(&mut r);
     empty_rateless_cases(&mut r);
     stream_fault_cases(&mut r);
     pace_probe_cases(&mut r);
